@@ -726,11 +726,20 @@ theorem polyCoord_intersects_iff {q : Poly} (hv : polyValid q = true) (p : Pt) :
     polyCoordIntersects q p = true ↔ PolyPts q p :=
   polyCoordIntersects_iff (PolyOk_of_valid hv) p
 
+example : polyCoordIntersects ⟨[⟨0, 0⟩, ⟨9, 0⟩, ⟨9, 9⟩, ⟨0, 9⟩, ⟨0, 0⟩], [[⟨2, 2⟩, ⟨2, 7⟩, ⟨7, 7⟩, ⟨7, 2⟩, ⟨2, 2⟩]]⟩ ⟨1, 8⟩ = true ↔
+    PolyPts ⟨[⟨0, 0⟩, ⟨9, 0⟩, ⟨9, 9⟩, ⟨0, 9⟩, ⟨0, 0⟩], [[⟨2, 2⟩, ⟨2, 7⟩, ⟨7, 7⟩, ⟨7, 2⟩, ⟨2, 2⟩]]⟩ ⟨1, 8⟩ :=
+  polyCoord_intersects_iff (by decide +kernel) _
+
 /-- **a point outside a valid polygon is nearest to its boundary**: the minimum distance to the rings
 is the minimum distance to the closed polygon as a point set -/
 theorem outside_point_nearest_to_boundary {q : Poly} (hv : polyValid q = true) {p : Pt} (hp : ¬ PolyPts q p)
     {m : Rat} (h : IsMinDist (· = p) (RingsPts (q.ext :: q.ints)) m) : IsMinDist (· = p) (PolyPts q) m :=
   outside_nearest_boundary (RingsOK_of_valid hv) (fun x hx => by rw [hx]; exact hp) h
+
+example (m : Rat) (h : IsMinDist (· = (⟨4, 5⟩ : Pt))
+      (RingsPts [[⟨0, 0⟩, ⟨9, 0⟩, ⟨9, 9⟩, ⟨0, 9⟩, ⟨0, 0⟩], [⟨2, 2⟩, ⟨2, 7⟩, ⟨7, 7⟩, ⟨7, 2⟩, ⟨2, 2⟩]]) m) :
+    IsMinDist (· = (⟨4, 5⟩ : Pt)) (PolyPts ⟨[⟨0, 0⟩, ⟨9, 0⟩, ⟨9, 9⟩, ⟨0, 9⟩, ⟨0, 0⟩], [[⟨2, 2⟩, ⟨2, 7⟩, ⟨7, 7⟩, ⟨7, 2⟩, ⟨2, 2⟩]]⟩) m :=
+  outside_point_nearest_to_boundary (q := ⟨[⟨0, 0⟩, ⟨9, 0⟩, ⟨9, 9⟩, ⟨0, 9⟩, ⟨0, 0⟩], [[⟨2, 2⟩, ⟨2, 7⟩, ⟨7, 7⟩, ⟨7, 2⟩, ⟨2, 2⟩]]⟩) (by decide +kernel) (by unfold PolyPts; decide +kernel) h
 
 /- full statements (without `hT`): false on the pinned tree, `ptPoly_hole_tolerance_witness` (K4 on a hole ring):
    theorem ptPoly_dist_is_ring_min (hv) (hp) : ∃ m, ptPoly2 p q = .fin m ∧ IsMinDist (· = p) (RingsPts …) m
@@ -797,6 +806,10 @@ theorem polyLine_intersects_iff {q : Poly} (hv : polyValid q = true) (a b : Pt) 
     polyLineIntersects q a b = true ↔ ∃ x, SegMem x a b ∧ PolyPts q x :=
   polyLineIntersects_iff (PolyOk_of_valid hv) a b
 
+example : polyLineIntersects ⟨[⟨0, 0⟩, ⟨9, 0⟩, ⟨9, 9⟩, ⟨0, 9⟩, ⟨0, 0⟩], [[⟨2, 2⟩, ⟨2, 7⟩, ⟨7, 7⟩, ⟨7, 2⟩, ⟨2, 2⟩]]⟩ ⟨4, 4⟩ ⟨5, 5⟩ = true ↔
+    ∃ x, SegMem x ⟨4, 4⟩ ⟨5, 5⟩ ∧ PolyPts ⟨[⟨0, 0⟩, ⟨9, 0⟩, ⟨9, 9⟩, ⟨0, 9⟩, ⟨0, 0⟩], [[⟨2, 2⟩, ⟨2, 7⟩, ⟨7, 7⟩, ⟨7, 2⟩, ⟨2, 2⟩]]⟩ x :=
+  polyLine_intersects_iff (by decide +kernel) _ _
+
 /-- **Line × Polygon is the true minimum distance** between the closed segment and the closed polygon
 (zero exactly when they share a point) -/
 theorem linePoly_dist_is_min {a b : Pt} {q : Poly} (hv : polyValid q = true) :
@@ -804,11 +817,19 @@ theorem linePoly_dist_is_min {a b : Pt} {q : Poly} (hv : polyValid q = true) :
     (linePoly2 a b q = .fin 0 ↔ ∃ x, SegMem x a b ∧ PolyPts q x) :=
   ⟨linePoly2_poly_IsMinDist (PolyOk_of_valid hv), linePoly2_zero_iff_common (PolyOk_of_valid hv)⟩
 
+example : ∃ m, linePoly2 ⟨4, 4⟩ ⟨5, 5⟩ ⟨[⟨0, 0⟩, ⟨9, 0⟩, ⟨9, 9⟩, ⟨0, 9⟩, ⟨0, 0⟩], [[⟨2, 2⟩, ⟨2, 7⟩, ⟨7, 7⟩, ⟨7, 2⟩, ⟨2, 2⟩]]⟩ = .fin m ∧
+    IsMinDist (fun x => SegMem x ⟨4, 4⟩ ⟨5, 5⟩) (PolyPts ⟨[⟨0, 0⟩, ⟨9, 0⟩, ⟨9, 9⟩, ⟨0, 9⟩, ⟨0, 0⟩], [[⟨2, 2⟩, ⟨2, 7⟩, ⟨7, 7⟩, ⟨7, 2⟩, ⟨2, 2⟩]]⟩) m :=
+  (linePoly_dist_is_min (by decide +kernel)).1
+
 /-- `LineString: Intersects<Polygon>` of a valid polygon (bounding-box rejection included): the line
 string has a point in the closed polygon -/
 theorem lsPoly_intersects_iff {q : Poly} (hv : polyValid q = true) (cs : List Pt) :
     lsPolyIntersects cs q = true ↔ ∃ x, LsPts cs x ∧ PolyPts q x :=
   lsPolyIntersects_iff (PolyOk_of_valid hv) cs
+
+example : lsPolyIntersects [⟨4, 4⟩, ⟨5, 5⟩, ⟨5, 3⟩] ⟨[⟨0, 0⟩, ⟨9, 0⟩, ⟨9, 9⟩, ⟨0, 9⟩, ⟨0, 0⟩], [[⟨2, 2⟩, ⟨2, 7⟩, ⟨7, 7⟩, ⟨7, 2⟩, ⟨2, 2⟩]]⟩ = true ↔
+    ∃ x, LsPts [⟨4, 4⟩, ⟨5, 5⟩, ⟨5, 3⟩] x ∧ PolyPts ⟨[⟨0, 0⟩, ⟨9, 0⟩, ⟨9, 9⟩, ⟨0, 9⟩, ⟨0, 0⟩], [[⟨2, 2⟩, ⟨2, 7⟩, ⟨7, 7⟩, ⟨7, 2⟩, ⟨2, 2⟩]]⟩ x :=
+  lsPoly_intersects_iff (by decide +kernel) _
 
 /-- **LineString × Polygon is the true minimum distance** between the line string and the closed
 polygon: zero exactly when they share a point; otherwise the exterior ring, or — line string inside the
@@ -852,6 +873,10 @@ theorem polyPoly_intersects_iff {a b : Poly} (hva : polyValid a = true) (hvb : p
     polyPolyIntersects a b = true ↔ ∃ x, PolyPts a x ∧ PolyPts b x :=
   polyPolyIntersects_iff (PolyOk_of_valid hva) (PolyOk_of_valid hvb)
 
+example : polyPolyIntersects ⟨[⟨0, 0⟩, ⟨9, 0⟩, ⟨9, 9⟩, ⟨0, 9⟩, ⟨0, 0⟩], [[⟨2, 2⟩, ⟨2, 7⟩, ⟨7, 7⟩, ⟨7, 2⟩, ⟨2, 2⟩]]⟩ ⟨[⟨3, 3⟩, ⟨6, 3⟩, ⟨6, 6⟩, ⟨3, 6⟩, ⟨3, 3⟩], []⟩ = true ↔
+    ∃ x, PolyPts ⟨[⟨0, 0⟩, ⟨9, 0⟩, ⟨9, 9⟩, ⟨0, 9⟩, ⟨0, 0⟩], [[⟨2, 2⟩, ⟨2, 7⟩, ⟨7, 7⟩, ⟨7, 2⟩, ⟨2, 2⟩]]⟩ x ∧ PolyPts ⟨[⟨3, 3⟩, ⟨6, 3⟩, ⟨6, 6⟩, ⟨3, 6⟩, ⟨3, 3⟩], []⟩ x :=
+  polyPoly_intersects_iff (by decide +kernel) (by decide +kernel)
+
 /-- **Polygon × Polygon is the true minimum distance** between the two closed polygons (zero exactly
 when they share a point; otherwise in each of the three branches — `b` in a hole of `a`, `a` in a hole of
 `b`, exterior to exterior — the rings that are measured carry the minimum over all pairs of points) -/
@@ -860,6 +885,10 @@ theorem polyPoly_dist_is_min {a b : Poly} (hva : polyValid a = true) (hvb : poly
     (polyPoly2 a b = .fin 0 ↔ ∃ x, PolyPts a x ∧ PolyPts b x) :=
   ⟨polyPoly2_poly_IsMinDist (PolyOk_of_valid hva) (PolyOk_of_valid hvb),
    polyPoly2_zero_iff_common (PolyOk_of_valid hva) (PolyOk_of_valid hvb)⟩
+
+example : ∃ m, polyPoly2 ⟨[⟨0, 0⟩, ⟨9, 0⟩, ⟨9, 9⟩, ⟨0, 9⟩, ⟨0, 0⟩], [[⟨2, 2⟩, ⟨2, 7⟩, ⟨7, 7⟩, ⟨7, 2⟩, ⟨2, 2⟩]]⟩ ⟨[⟨3, 3⟩, ⟨6, 3⟩, ⟨6, 6⟩, ⟨3, 6⟩, ⟨3, 3⟩], []⟩ = .fin m ∧
+    IsMinDist (PolyPts ⟨[⟨0, 0⟩, ⟨9, 0⟩, ⟨9, 9⟩, ⟨0, 9⟩, ⟨0, 0⟩], [[⟨2, 2⟩, ⟨2, 7⟩, ⟨7, 7⟩, ⟨7, 2⟩, ⟨2, 2⟩]]⟩) (PolyPts ⟨[⟨3, 3⟩, ⟨6, 3⟩, ⟨6, 6⟩, ⟨3, 6⟩, ⟨3, 3⟩], []⟩) m :=
+  (polyPoly_dist_is_min (by decide +kernel) (by decide +kernel)).1
 
 /-- **dist2_symm, Polygon × Polygon for valid polygons, with or without holes** (the full statement
 behind `polyPoly_symm_partial`: both orders return the minimum over the same pairs of points) -/
@@ -923,6 +952,8 @@ theorem tolOkX_of_noK4 {x y : Base} (h : noK4 x y) : tolOkX x y := by
     | exact trivial
     | (intro r hr; rw [show _ = [] from h] at hr; cases hr)
 
+example : noK4 (.pt ⟨1, 1⟩) (.pg ⟨[⟨5, 5⟩, ⟨9, 5⟩, ⟨9, 9⟩, ⟨5, 5⟩], []⟩) := rfl
+
 /-- the same at full strength for the pairs without a tolerance test -/
 theorem baseD_is_true_min {x y : Base} (hx : partOk x) (hy : partOk y) (hk : noK4 x y) :
     (∃ m, baseD x y = .fin m ∧ IsMinDist (basePts x) (basePts y) m) ∧
@@ -943,6 +974,28 @@ theorem distG_is_true_min_areal_partial {a b : Geom} (ha : ∀ p ∈ parts a, pa
     (ht : ∀ p ∈ parts a, ∀ q ∈ parts b, tolOkX p q) (na : parts a ≠ []) (nb : parts b ≠ []) :
     ∃ m, distG a b = .fin m ∧ IsMinDist (GeomPtsX a) (GeomPtsX b) m :=
   distG_IsMinDist_gen ha hb ht na nb
+
+example :
+    let a : Geom := .polygon ⟨[⟨0, 0⟩, ⟨9, 0⟩, ⟨9, 9⟩, ⟨0, 9⟩, ⟨0, 0⟩], [[⟨2, 2⟩, ⟨2, 7⟩, ⟨7, 7⟩, ⟨7, 2⟩, ⟨2, 2⟩]]⟩
+    let b : Geom := .multiPoint [⟨4, 5⟩, ⟨20, 20⟩]
+    (∀ p ∈ parts a, partOk p) ∧ (∀ q ∈ parts b, partOk q) ∧ (∀ p ∈ parts a, ∀ q ∈ parts b, tolOkX p q) ∧
+    parts a ≠ [] ∧ parts b ≠ [] := by
+  refine ⟨?_, ?_, ?_, by simp [parts], by simp [parts]⟩
+  · intro p hp
+    simp only [parts, List.mem_singleton] at hp
+    subst hp; show polyValid _ = true; decide +kernel
+  · intro q hq
+    simp only [parts, List.map_cons, List.map_nil, List.mem_cons, List.mem_nil_iff, or_false] at hq
+    rcases hq with rfl | rfl <;> trivial
+  · intro p hp q hq
+    simp only [parts, List.mem_singleton] at hp
+    simp only [parts, List.map_cons, List.map_nil, List.mem_cons, List.mem_nil_iff, or_false] at hq
+    subst hp
+    rcases hq with rfl | rfl <;>
+      (intro r hr h
+       simp only [List.mem_singleton] at hr
+       subst hr
+       exact absurd h (by decide +kernel))
 
 /-- …at full strength when no pair of parts carries a tolerance test -/
 theorem distG_is_true_min_areal {a b : Geom} (ha : ∀ p ∈ parts a, partOk p) (hb : ∀ q ∈ parts b, partOk q)
@@ -984,6 +1037,10 @@ example : partOk (.pg ⟨[⟨0, 0⟩, ⟨4, 0⟩, ⟨0, 4⟩, ⟨0, 0⟩], []⟩
 orders run different code is Polygon × Polygon, `polyPoly_symm_valid`) -/
 theorem baseD_symm_valid {x y : Base} (hx : partOk x) (hy : partOk y) : baseD x y = baseD y x :=
   baseD_symm_ok hx hy
+
+example : baseD (.pg ⟨[⟨0, 0⟩, ⟨9, 0⟩, ⟨9, 9⟩, ⟨0, 9⟩, ⟨0, 0⟩], [[⟨2, 2⟩, ⟨2, 7⟩, ⟨7, 7⟩, ⟨7, 2⟩, ⟨2, 2⟩]]⟩) (.pg ⟨[⟨3, 3⟩, ⟨6, 3⟩, ⟨6, 6⟩, ⟨3, 6⟩, ⟨3, 3⟩], []⟩) =
+    baseD (.pg ⟨[⟨3, 3⟩, ⟨6, 3⟩, ⟨6, 6⟩, ⟨3, 6⟩, ⟨3, 3⟩], []⟩) (.pg ⟨[⟨0, 0⟩, ⟨9, 0⟩, ⟨9, 9⟩, ⟨0, 9⟩, ⟨0, 0⟩], [[⟨2, 2⟩, ⟨2, 7⟩, ⟨7, 7⟩, ⟨7, 2⟩, ⟨2, 2⟩]]⟩) :=
+  baseD_symm_valid (by show polyValid _ = true; decide +kernel) (by show polyValid _ = true; decide +kernel)
 
 /-- **dist2_symm, `distance(a, b) = distance(b, a)` for all geometries with parts in the domain**
 (Multi*, nested collections: the two dispatches fold `min` over the same part pairs, in a different order
